@@ -166,7 +166,7 @@ def _interp_job(job):
                 return proc.ProcResult(shape, "invalid", "applying the interpretations to the rewritten actuals, formals "
                                        "bound in order, gives %s (%s)" % (sc.node_str(w, exp), v.detail), rs)
         return proc.ProcResult(shape, "valid", "= body[formals := rewritten actuals]", rs)
-    res = proc.run_proc(shape, call, post=post, services=True)
+    res = proc.run_proc(shape, call, post=post, services=True, world_cls=proc.TypedWorld)
     istr = "{%s}" % ", ".join("%s(%s) := %s" % (k[0], ", ".join(proc.shape_str(x) for x in v[0]), proc.shape_str(v[1]))
                               for k, v in ip.items())
     return [(cls.split(".")[-1], "%r with %s" % (shape, istr), r.kind, str(r.detail), r.result) for r in res]
@@ -219,7 +219,7 @@ def _job(job):
                                            "original under the updated interpretation %r" % (sc._show(asg), lhs, rhs), rs)
                 n_ok += 1
         return proc.ProcResult(shape, "valid", "= reference %s" % ("MGS" if mode == "mg" else "MSS"), rs)
-    res = proc.run_proc(shape, call, post=post, services=True)
+    res = proc.run_proc(shape, call, post=post, services=True, world_cls=proc.TypedWorld)
     mstr = "{%s}" % ", ".join("%r: %r" % (k, v) for k, v in mp)
     return [("FNode.substitute" if via_method else cls.split(".")[-1], "%r with %s" % (shape, mstr), r.kind, str(r.detail), r.result) for r in res]
 
